@@ -63,7 +63,7 @@ TReset ==
     /\ inbox' = [e \in EP |-> <<>>]
     /\ nAcc' = [e \in EP |-> 0] /\ nPing' = [e \in EP |-> 0]
     /\ dlv' = [e \in EP |-> <<>>]
-    /\ drops' = 0 /\ dups' = 0 /\ nRs' = [e \in EP |-> 0]
+    /\ drops' = 0 /\ dups' = 0 /\ nRs' = [e \in EP |-> 0] /\ nInj' = 0
     /\ uTop' = [e \in EP |-> 0] /\ uBase' = [e \in EP |-> 0]
     /\ uR' = [e \in EP |-> 0]
     /\ dead' = [e \in EP |-> FALSE]
@@ -108,8 +108,17 @@ TTxOther ==
     /\ ch' = [ch EXCEPT ![Peer(E)] = Put(@, [k |-> Ev.k], Ev.c)]
     /\ dead' = IF Ev.k = "FIN" THEN [dead EXCEPT ![E] = TRUE] ELSE dead
     /\ UNCHANGED <<base, top, buf, rseq, lastNack, spc, ping, rsNext, rsTop,
-                   rsRet, rcur, szR, inbox, nAcc, nPing, dlv, drops, dups, nRs,
+                   rsRet, rcur, szR, inbox, nAcc, nPing, dlv, drops, dups, nRs, nInj,
                    uTop, uBase, uR, held, szS, strict>>
+
+\* The relay forged a packet (C07 scenarios); E is the endpoint the harness
+\* names as its pretended sender.
+TInj == /\ Is("inj") /\ Adv /\ Keep
+        /\ ch' = [ch EXCEPT ![Peer(E)] = Append(@, Pkt(Ev))]
+        /\ nInj' = nInj + 1
+        /\ UNCHANGED <<base, top, buf, rseq, lastNack, spc, ping, rsNext, rsTop,
+                       rsRet, rcur, szR, inbox, nAcc, nPing, dlv, drops, dups,
+                       nRs, uTop, uBase, uR>>
 
 \* The transport handed the head of the channel to a recvFromStream caller.
 \* That is normally the receive loop, which reports it next ("rx"), but a
@@ -120,7 +129,7 @@ TDeq == /\ Is("deq") /\ Adv
         /\ held' = [held EXCEPT ![E] = Append(@, Pkt(Ev))]
         /\ UNCHANGED <<base, top, buf, rseq, lastNack, spc, ping, rsNext,
                        rsTop, rsRet, rcur, szR, inbox, nAcc, nPing, dlv,
-                       drops, dups, nRs, uTop, uBase, uR, dead, szS, strict>>
+                       drops, dups, nRs, nInj, uTop, uBase, uR, dead, szS, strict>>
 
 RemoveAt(q, i) == [j \in 1..(Len(q) - 1) |-> IF j < i THEN q[j] ELSE q[j + 1]]
 
@@ -142,7 +151,7 @@ TRx == /\ Is("rx") /\ Adv /\ UNCHANGED <<dead, szS, strict>>
                 ELSE UNCHANGED rcur
        /\ UNCHANGED <<base, top, buf, rseq, lastNack, ch, spc, ping, rsNext,
                       rsTop, rsRet, szR, inbox, nAcc, nPing, dlv, drops, dups,
-                      nRs, uTop, uBase, uR>>
+                      nRs, nInj, uTop, uBase, uR>>
 
 TRSeq == Is("rseq") /\ Adv /\ Keep /\ Stutter /\ rseq[E] = Ev.v
 
@@ -226,7 +235,7 @@ TEnd == /\ Is("end") /\ Adv /\ Keep /\ Stutter
 
 TraceNext ==
     \/ TReset \/ TPing \/ TAdd \/ TTxData \/ TTxAck \/ TTxNack \/ TTxOther
-    \/ TDeq \/ TRx \/ TRSeq \/ TNackSupp \/ TAck \/ TAckEmpty \/ TNack
+    \/ TInj \/ TDeq \/ TRx \/ TRSeq \/ TNackSupp \/ TAck \/ TAckEmpty \/ TNack
     \/ TFull \/ TWake \/ TResend \/ TResendSkip \/ TSyncWait \/ TSyncDone
     \/ TRecvRet \/ TSendRet \/ TProbe \/ TInfo \/ TEnd
 
